@@ -799,6 +799,104 @@ func TestC20(t *testing.T) {
 	run.Extra("generated_programs_enumerated", enumerated)
 	// Part 3: unscheduled stress under the race detector (hooks inert).
 	stress20(t, run)
+	// Part 4: wide fan-out - a registry of a hundred and more subscribers that stay, while others in
+	// front of them come and go.
+	fanout20(t, run)
+}
+
+// fanout20: many subscribers that are never removed (exact "a", never failing) sit behind a few
+// that are removed and re-made all the time (prefix "", some failing: removed by Unsubscribe("b")
+// and by the publishers' own clean-up). Every publish of "a" happens after all the stable ones were
+// subscribed and none of them is ever unsubscribed: each must get every event exactly once and each
+// publish must count them all.
+func fanout20(t *testing.T, run *hx.Run) {
+	rounds := 2
+	if n, err := strconv.Atoi(getenv("VERIF_CHECKS", "0")); err == nil && n > 2000 {
+		rounds = 16
+	}
+	seed := int64(1)
+	if n, err := strconv.ParseInt(getenv("VERIF_SEED", "1"), 10, 64); err == nil {
+		seed = n
+	}
+	for r := 0; r < rounds; r++ {
+		w, err := newWorld20()
+		if err != nil {
+			t.Fatal(err)
+		}
+		x := uint64(seed)*2654435761 + uint64(r)*40503
+		nVolatile := 3 + int(x>>8)%8
+		nStable := 66 + int(x>>16)%140
+		for i := 0; i < nVolatile; i++ {
+			w.do(-1, Op20{Kind: "sub", ID: "", Wildcard: true, Fail: i%3 == 1})
+		}
+		for i := 0; i < nStable; i++ {
+			w.do(-1, Op20{Kind: "sub", ID: "a"})
+		}
+		const publishers, churners, perPublisher, perChurner = 3, 3, 120, 80
+		var wg sync.WaitGroup
+		start := make(chan struct{})
+		for i := 0; i < publishers; i++ {
+			var prog []Op20
+			for j := 0; j < perPublisher; j++ {
+				prog = append(prog, Op20{Kind: "pub", ID: "a"})
+			}
+			wg.Add(1)
+			go c20FanoutWorker(w, i, prog, start, &wg)
+		}
+		for i := 0; i < churners; i++ {
+			var prog []Op20
+			for j := 0; j < perChurner; j++ {
+				prog = append(prog, Op20{Kind: "unsub", ID: "b"}, Op20{Kind: "sub", ID: "", Wildcard: true, Fail: (i+j)%4 == 0})
+			}
+			wg.Add(1)
+			go c20FanoutWorker(w, publishers+i, prog, start, &wg)
+		}
+		close(start)
+		done := make(chan struct{})
+		go func() { wg.Wait(); close(done) }()
+		what := fmt.Sprintf("fan-out round %d: %d subscribers (prefix \"\", some failing) in front, %d stable subscribers of \"a\", %d publishers x %d publish(\"a\"), %d goroutines x %d (Unsubscribe(\"b\"), subscribe prefix \"\")",
+			r, nVolatile, nStable, publishers, perPublisher, churners, perChurner)
+		if stuck := hx.AwaitOrStuck(done, "conc.c20FanoutWorker"); stuck != "" {
+			d := []hx.Discrepancy{{Kind: "deadlock", Detail: what + ": " + stuck}}
+			fmt.Printf("--- FAIL: C20 violated: %s\n", run.ReportFailure(map[string]interface{}{"fanout": what}, d))
+			os.Exit(1)
+		}
+		probs := checkLogsStress(w)
+		total := publishers * perPublisher
+		for _, s := range w.rec.subs {
+			if s.wildcard {
+				continue
+			}
+			if len(s.sends) != total {
+				probs = append(probs, fmt.Sprintf("stable subscriber #%d (subscribed before any publish, never unsubscribed, never failing) received %d of the %d events published", s.num, len(s.sends), total))
+			}
+			if len(s.cleanups) != 0 {
+				probs = append(probs, fmt.Sprintf("stable subscriber #%d was cleaned up although nothing removed it", s.num))
+			}
+		}
+		for _, cr := range w.rec.calls {
+			if cr.op.Kind == "pub" && cr.count < nStable {
+				probs = append(probs, fmt.Sprintf("a publish of \"a\" reported %d matching subscribers, %d are registered throughout", cr.count, nStable))
+			}
+		}
+		run.Case(hx.Hash(map[string]interface{}{"fanout": what}), true, "wide-fan-out-round(-race)")
+		if len(probs) > 0 {
+			if len(probs) > 6 {
+				probs = append(probs[:6], fmt.Sprintf("... and %d more", len(probs)-6))
+			}
+			d := []hx.Discrepancy{{Kind: "registry", Detail: strings.Join(probs, "; ") + "\n" + what}}
+			t.Fatalf("C20 violated: %s", run.ReportFailure(map[string]interface{}{"fanout": what}, d))
+		}
+	}
+	run.Extra("fanout_rounds", rounds)
+}
+
+func c20FanoutWorker(w *world20, i int, program []Op20, start chan struct{}, wg *sync.WaitGroup) {
+	defer wg.Done()
+	<-start
+	for _, op := range program {
+		w.do(i, op)
+	}
 }
 
 // stress20 hammers one root from many goroutines with the real scheduler; the race detector
